@@ -24,11 +24,11 @@ func main() {
 	engine.Main(&engine.Spec{
 		Prop:  "C14",
 		Level: "exploration",
-		Rule: "functions = every chain of ≤ 3 (quick) / ≤ 4 (thorough) nested constructs out of 23 variants (loop, while, labelled loop, labelled while, value loop, " +
-			"do with the hole in body / catch :a / catch-all / finally and with or without catch, catch-all, finally clauses and a pending throw/return/break, defer, if-then, if-else, " +
+		Rule: "functions = every chain of nested constructs (quick: ≤ 2 over all 24 variants plus depth 3 over the 14 core variants; thorough: ≤ 3 over all 24 plus depth 4 over the core variants with unguarded exits); variants (loop, while, labelled loop, labelled while, value loop, " +
+			"do with the hole in body / catch :a / catch-all / finally and with or without catch, catch-all, finally clauses and a pending throw/return/break, defer, expression block `100 + do … end`, if-then, if-else, " +
 			"sibling do before/after) × every exit kind valid in the innermost hole (fall through, return, throw :a, throw :b, break, continue, break[label] and continue[label] for every " +
 			"enclosing labelled loop, break with a value; each also guarded so that it happens in the second iteration of the innermost loop); every function prints a marker in every clause; " +
-			"plus the same chains of depth ≤ 1 with the guard variable as a parameter, plus all expressions with 1 and 2 operators out of && || ?? over operands {nil, false, 0, :s} that print a marker, " +
+			"plus the core chains of depth ≤ 2 (unguarded exits) with the guard variable as a parameter, plus all expressions with 1 and 2 operators out of && || ?? over operands {nil, false, 0, :s} that print a marker, " +
 			"operands typed precisely (inline) or nilable (helper call), used as a value and as an if-condition; oracle: stdout and final value/uncaught symbol equal the big-step reference interpreter's; " +
 			"every function is a distinct term (no repetition); non-trivial = the function contains an abrupt exit or a throw, or the expression has a side-effecting right operand",
 		Assume: []string{
@@ -44,10 +44,6 @@ func main() {
 }
 
 func run(c *engine.Ctx) {
-	maxDepth := 3
-	if c.Thorough {
-		maxDepth = 4
-	}
 	// 1. control-flow chains
 	emit := func(prefix string, o mini.CFOpts) {
 		var chunk []*mini.CFCase
@@ -71,8 +67,14 @@ func run(c *engine.Ctx) {
 		})
 		flush()
 	}
-	emit("cf", mini.CFOpts{MinDepth: 0, MaxDepth: maxDepth, CondExits: true})
-	emit("cf-param", mini.CFOpts{MinDepth: 0, MaxDepth: 1, CondExits: false, Param: true})
+	if !c.Thorough {
+		emit("cf", mini.CFOpts{MinDepth: 0, MaxDepth: 2, CondExits: true})
+		emit("cf3-core", mini.CFOpts{MinDepth: 3, MaxDepth: 3, CondExits: true, Variants: mini.CFCore})
+	} else {
+		emit("cf", mini.CFOpts{MinDepth: 0, MaxDepth: 3, CondExits: true})
+		emit("cf4-core", mini.CFOpts{MinDepth: 4, MaxDepth: 4, CondExits: false, Variants: mini.CFCore})
+	}
+	emit("cf-param", mini.CFOpts{MinDepth: 0, MaxDepth: 2, CondExits: false, Param: true, Variants: mini.CFCore})
 	// 2. short-circuit operators
 	for _, ops := range []int{1, 2} {
 		for _, wide := range []bool{true, false} {
@@ -125,7 +127,7 @@ func variantClass(v string) string {
 	case v == "while" || v == "lwhile":
 		return "while"
 	case strings.HasPrefix(v, "do."):
-		hole := map[byte]string{'b': "body", 'c': "catch", 'y': "catch-all", 'f': "finally"}[v[3]]
+		hole := map[byte]string{'b': "body", 'c': "catch-clause", 'y': "catch-clause", 'f': "finally"}[v[3]]
 		cl := v[5:]
 		fin := ""
 		if strings.Contains(cl, "f") {
@@ -160,12 +162,81 @@ func lineRole(cc *mini.CFCase, line string) string {
 		return t.Role + "@" + variantClass(t.Variant)
 	}
 	if strings.HasPrefix(line, "THROWN") {
-		return "uncaught-throw"
+		return "function-result"
 	}
 	if strings.HasPrefix(line, "d") {
 		return "defer"
 	}
-	return "value"
+	return "function-result"
+}
+
+// leavesClauseAndContinues: some abrupt completion of the function (the exit in the innermost hole, or the
+// pending throw/return/break of a do.f-* construct) leaves a catch or finally clause of an enclosing do and
+// is then stopped inside the function (a break/continue by its loop, a throw by a catch clause). This static
+// feature of the shape separates defects of the clause-exit protocol from others in the signatures.
+func leavesClauseAndContinues(cc *mini.CFCase) bool {
+	type comp struct {
+		kind  string // throw-a throw-b return break continue
+		label string
+		from  int // index of the innermost construct it has to leave first
+	}
+	var comps []comp
+	e := strings.TrimPrefix(cc.Exit, "?")
+	d := len(cc.Chain)
+	switch {
+	case e == "fall":
+	case e == "return" || e == "throw-a" || e == "throw-b":
+		comps = append(comps, comp{kind: e, from: d - 1})
+	case strings.HasPrefix(e, "break[") || strings.HasPrefix(e, "continue["):
+		i := strings.IndexByte(e, '[')
+		comps = append(comps, comp{kind: e[:i], label: e[i+1 : len(e)-1], from: d - 1})
+	case e == "break" || e == "break-v":
+		comps = append(comps, comp{kind: "break", from: d - 1})
+	case e == "continue":
+		comps = append(comps, comp{kind: "continue", from: d - 1})
+	}
+	for i, v := range cc.Chain {
+		switch v {
+		case "do.f-tf":
+			comps = append(comps, comp{kind: "throw-a", from: i - 1})
+		case "do.f-rf":
+			comps = append(comps, comp{kind: "return", from: i - 1})
+		case "do.f-kf":
+			comps = append(comps, comp{kind: "break", from: i - 1})
+		}
+	}
+	for _, c := range comps {
+		crossed := false
+		for k := c.from; k >= 0; k-- {
+			v := cc.Chain[k]
+			switch {
+			case strings.HasPrefix(v, "do."):
+				hole, clauses := v[3], v[5:]
+				if hole == 'b' {
+					if strings.HasPrefix(c.kind, "throw") {
+						if strings.Contains(clauses, "y") || (c.kind == "throw-a" && strings.Contains(clauses, "c")) {
+							if crossed {
+								return true
+							}
+							k = -1 // caught without having crossed a clause
+						}
+					}
+				} else {
+					crossed = true
+				}
+			case v == "loop" || v == "while" || v == "vloop" || v == "lloop" || v == "lwhile":
+				if c.kind == "break" || c.kind == "continue" {
+					if c.label == "" || c.label == fmt.Sprintf("L%d", k+1) {
+						if crossed {
+							return true
+						}
+						k = -1
+					}
+				}
+			}
+		}
+	}
+	return false
 }
 
 func lines(s string) []string {
@@ -218,8 +289,11 @@ func runChunk(r *engine.R, cs []*mini.CFCase) {
 		}
 		want := wants[i].Stdout()
 		feature := ""
-		if len(cc.Def.Params) > 0 {
-			feature = " [method with a parameter]"
+		if leavesClauseAndContinues(cc) {
+			feature = " [an exit leaves a catch/finally clause and execution continues in the function]"
+		}
+		if u.OnlyInBatch {
+			feature += " (only after earlier independent functions ran in the same program)"
 		}
 		switch {
 		case u.Rejected:
@@ -278,9 +352,9 @@ func mismatchSig(cc *mini.CFCase, want, got []string) (sig, where string) {
 	}
 	where = fmt.Sprintf("first divergence at line %d: expected %q (%s), observed %q (%s)", i+1, exp, lineRole(cc, exp), obs, lineRole(cc, obs))
 	if exp == "<end of output>" {
-		return fmt.Sprintf("trace: extra output %s after the expected end; exit=%s", lineRole(cc, obs), exitClass(cc.Exit)), where
+		return fmt.Sprintf("trace: extra output %s after the expected end", lineRole(cc, obs)), where
 	}
-	return fmt.Sprintf("trace: expected %s not executed at its turn; exit=%s", lineRole(cc, exp), exitClass(cc.Exit)), where
+	return fmt.Sprintf("trace: expected %s not executed at its turn", lineRole(cc, exp)), where
 }
 
 // ---------------------------------------------------------------------------------------------
